@@ -29,6 +29,7 @@ import (
 	"github.com/specterops/dawgs/cypher/models/cypher"
 	"github.com/specterops/dawgs/cypher/models/pgsql/translate"
 	"github.com/specterops/dawgs/cypher/models/walk"
+	"github.com/specterops/dawgs/drivers/pg/pgutil"
 	"github.com/specterops/dawgs/graph"
 	"github.com/specterops/dawgs/verifsim/simrt"
 
@@ -104,6 +105,10 @@ func loadCorpus() {
 		qcase{text: "match (n) where n.x = 1 remove n.alpha, n.beta set n.gamma = 1, n.delta = 2 return n"},
 		qcase{text: "match (a)-[r]->(b) remove r.one, r.two, a.three, a.four, b.five, b.six return a"},
 		qcase{text: "match (n) set n.a = 1, n.b = 2, n.c = 3 remove n.d, n.e return n"},
+		// kinds the mapper has and has not seen yet, in one label list
+		qcase{text: "create (n:New:Known) return n"},
+		qcase{text: "create (a:Fresh1:User:Fresh2)-[:EdgeKind1]->(b:Known:Fresh3) return a"},
+		qcase{text: "match (n:NodeKind1) set n:Brand:Known:New2 return n"},
 	)
 	corpus = append(corpus, rich...)
 	// a few builder-style / awkward extras
@@ -265,6 +270,11 @@ func reference(qi int) (outcome, error) {
 	if o.Panic != "" {
 		return o, fmt.Errorf("PANIC translating %q: %s", corpus[qi].text, o.Panic)
 	}
+	// the repository's own in-memory kind mapper is stateful (it defines kinds on first sight):
+	// repeating a call against the SAME mapper instance must still give byte-identical SQL
+	if d := repeatOnStatefulMapper(qi); d != "" {
+		return o, fmt.Errorf("repeated translation of %q against one pgutil.InMemoryKindMapper differs: %s", corpus[qi].text, d)
+	}
 	// repeated solo calls must already agree (map iteration order is the only nondeterminism here)
 	for i := 0; i < 8; i++ {
 		q2, _ := parse(corpus[qi])
@@ -279,6 +289,35 @@ func reference(qi int) (outcome, error) {
 
 // cloneParams deep-copies parameter values (maps and slices of any type, nil-ness preserved), so that
 // every call starts from pristine caller-owned values.
+func repeatOnStatefulMapper(qi int) string {
+	m := pgutil.NewInMemoryKindMapper()
+	for _, k := range []string{"NodeKind1", "EdgeKind1", "Known", "User"} {
+		m.Put(graph.StringKind(k))
+	}
+	var first string
+	for i := 0; i < 3; i++ {
+		q, err := parse(corpus[qi])
+		if err != nil {
+			return ""
+		}
+		res, err := translate.Translate(context.Background(), q, m, cloneParams(corpus[qi].params), translate.DefaultGraphID)
+		out := ""
+		if err != nil {
+			out = "ERR " + err.Error()
+		} else if sql, ferr := translate.Translated(res); ferr != nil {
+			out = "FORMAT " + ferr.Error()
+		} else {
+			out = sql + fmt.Sprint(res.Parameters)
+		}
+		if i == 0 {
+			first = out
+		} else if out != first {
+			return fmt.Sprintf("call 1: %s\ncall %d: %s", first, i+1, out)
+		}
+	}
+	return ""
+}
+
 func cloneParams(m map[string]any) map[string]any {
 	if m == nil {
 		return nil
